@@ -422,6 +422,12 @@ pub fn scenarios(thorough: bool, rng: &mut StdRng) -> Vec<Scenario> {
       vec![(1, vec![Extend(vec![0, 1, 2])])]);
     s("forced-lost-wakeup-notify-before-unlock", 1, 1, vec![NewInjector(1), StartWriter(0), JoinWriters, Reparse(1), Tick(0), Rule("pool", "run.end", "main", "tick.armed"), DrainNotified(0)],
       vec![(1, vec![Extend(vec![0, 1, 2])])]);
+    // the matcher is dropped right after a restart while the run spawned by the last tick is still in flight: drop has
+    // to wait for that run (it still owns the old stream) - every item is destroyed by the time drop returns
+    s("restart-then-drop-during-run", 1, 1, vec![NewInjector(1), StartWriter(0), JoinWriters, Reparse(1), Rule("pool", "run.begin", "main", "drop.lock"), Tick(0), DropInjector(1), Restart(false)],
+      vec![(1, vec![Extend(vec![0, 1, 2]), Push(3)])]);
+    s("restart-clear-then-drop-during-run", 2, 1, vec![NewInjector(1), StartWriter(0), JoinWriters, Rule("pool", "run.begin", "main", "drop.lock"), Tick(0), DropInjector(1), Restart(true)],
+      vec![(1, vec![Extend(vec![0, 1, 2]), Push(3)])]);
     s("forced-unlock-before-second-attempt", 1, 1, vec![NewInjector(1), StartWriter(0), JoinWriters, Reparse(1), Rule("pool", "run.unlocked", "main", "tick.retry_lock"), Tick(0), DrainNotified(0)],
       vec![(1, vec![Extend(vec![0, 1, 2])])]);
     s("forced-second-attempt-before-unlock", 1, 1, vec![NewInjector(1), StartWriter(0), JoinWriters, Reparse(1), Rule("pool", "run.end", "main", "tick.retry_lock"), Tick(0), DrainNotified(0)],
